@@ -14,7 +14,7 @@ RULE = (
     "states = canonical states of one real Problem reached by operation histories over the alphabet {minimize(e), "
     "maximize(e) for e in {linear, linear', convex quadratic, non-quadratic over x, y; linear / quadratic objectives over other variable sets of equal size (a,x,y / x,y,z / a,x,z)}; subject_to(c), subject_to([c,c']) for c "
     "in {linear <=, linear >=, linear ==, nonlinear <=} (at most 2 constraints, 3 thorough); x.ub := 2|4, y.lb := "
-    "0|1; solve(m) for m in {auto, linprog, highs, SLSQP, trust-constr, L-BFGS-B}; read (.variables, .n_variables, "
+    "0|1; solve(m) for m in {auto, linprog, highs, SLSQP, trust-constr, L-BFGS-B, Nelder-Mead (+ COBYLA, Powell in the method-order driver)}; read (.variables, .n_variables, "
     "get_bounds(), linearity decision)}.  Four closed drivers (LP<->NLP switching; constraint additions incl. "
     "nonlinear on an LP; bounds edits; sense switching with lazily added Hessian) are run to FIXPOINT and a combined "
     "driver over the full alphabet to depth 3 (quick) / 5 (thorough).  Each history is replayed on fresh real "
@@ -33,7 +33,7 @@ ASSUMPTIONS = [
 INIT = {"obj": None, "sense": None, "cons": (), "xub": 4.0, "ylb": 0.0, "free": False}
 # every variable unbounded when the first caches are built; bounds appear (and disappear) later
 INIT_FREE = {"obj": None, "sense": None, "cons": (), "xub": None, "ylb": None, "free": True}
-METHODS = ("auto", "linprog", "highs", "SLSQP", "trust-constr", "L-BFGS-B")
+METHODS = ("auto", "linprog", "highs", "SLSQP", "trust-constr", "L-BFGS-B", "Nelder-Mead")
 OBJ_KEYS = ("L1", "L2", "Q", "N")
 CON_KEYS = ("c1", "c2", "c3", "c4")
 
@@ -332,6 +332,10 @@ DRIVERS = {
     "free-then-bounded": dict(roots=[(("init", "free"), ("min", "Q")), (("init", "free"), ("min", "Q"), ("st", "c1"))],
                               menu=[("xub", 0.5), ("xub", None), ("ylb", 3.0), ("ylb", None), S("auto"), S("L-BFGS-B"), S("SLSQP"),
                                     S("trust-constr"), ("read",)], depth=None),
+    # which method built the cache first: derivative-free methods need no gradient, Hessian methods add one lazily
+    "method-order": dict(roots=[(("max", "Q"),), (("max", "N"), ("st", "c1")), (("min", "N"),)],
+                         menu=[S("Nelder-Mead"), S("COBYLA"), S("Powell"), S("L-BFGS-B"), S("SLSQP"), S("trust-constr"), S("auto"),
+                               ("max", "Q"), ("read",)], depth=None),
     "variable-set": dict(roots=[(("st", "c1"), ("st", "c3"))],
                          menu=[("max", "La"), ("max", "Lz"), ("min", "Laz"), ("min", "L1"), ("min", "Qz"), S("auto"), S("SLSQP"),
                                ("read",)], depth=None),
